@@ -26,7 +26,7 @@ pub fn c09(ctx: &Ctx, subj: &dyn DynSubject, ty: &Ty, rep: &mut Report) {
     // measurements are process-wide and sequential: a deterministic sample of the subjects is used
     let replaying = REPLAY_VAL.with(|c| c.borrow().is_some());
     let stride = if ctx.tier == Tier::Thorough { 3 } else { 12 };
-    if !replaying && vmodel::mix_seed(&[subj.name()], ctx.seed) % stride != 0 {
+    if !replaying && !subj.name().contains("DropAudit") && vmodel::mix_seed(&[subj.name()], ctx.seed) % stride != 0 {
         *rep.excluded.entry("subjects not sampled for the sequential leak measurements".into()).or_default() += 1;
         return;
     }
@@ -38,12 +38,12 @@ pub fn c09(ctx: &Ctx, subj: &dyn DynSubject, ty: &Ty, rep: &mut Report) {
         self_check(subj, v0)?;
         // inflate borrowed payloads so that a leaked buffer / mapping dwarfs allocator noise
         let (b0, _) = ser_bytes(subj, v0)?;
-        let enc0 = model_enc(ctx, subj, ty, v0)?;
+        let enc0 = model_enc_fit(ctx, subj, ty, v0, b0.len(), log)?;
         let borrowed: usize = enc0.blocks.iter().filter(|b| b.borrowed).map(|b| b.len).sum();
         let v = if borrowed > 0 { ctx.model.scale(ty, v0, (300_000 / borrowed).clamp(1, 40_000)) } else { v0.clone() };
         let v = &v;
         let (bytes, _) = ser_bytes(subj, v)?;
-        let enc = model_enc(ctx, subj, ty, v)?;
+        let enc = model_enc_fit(ctx, subj, ty, v, bytes.len(), log)?;
         let big = bytes.len() >= 200_000;
         log.classes.push(if big { "big-file".into() } else { "small-file".into() });
         let _ = b0;
@@ -75,6 +75,7 @@ pub fn c09(ctx: &Ctx, subj: &dyn DynSubject, ty: &Ty, rep: &mut Report) {
             causes.push(("foreign tag".into(), Some(m)));
         }
         causes.push(("missing file".into(), None));
+        causes.push(("path is a directory".into(), None));
         log.nontrivial = true;
         log.sample = Some(sample_json(subj, v, Some(&bytes), json!({"file_len": bytes.len(), "causes": causes.iter().map(|c| c.0.clone()).collect::<Vec<_>>() })));
         for (cause, data) in &causes {
@@ -82,6 +83,10 @@ pub fn c09(ctx: &Ctx, subj: &dyn DynSubject, ty: &Ty, rep: &mut Report) {
                 Some(d) => write(d)?,
                 None => {
                     std::fs::remove_file(&path).ok();
+                    std::fs::remove_dir(&path).ok();
+                    if cause == "path is a directory" {
+                        std::fs::create_dir(&path).map_err(|e| Fail::new("harness:tmpfile", format!("cannot create temp dir: {}", e)))?;
+                    }
                 }
             }
             for loader in LOADERS {
@@ -127,17 +132,32 @@ pub fn c09(ctx: &Ctx, subj: &dyn DynSubject, ty: &Ty, rep: &mut Report) {
                 }
             }
         }
+        std::fs::remove_dir(&path).ok();
         // ---- (b) successful loads release everything; (c) region stable while owned
         write(&bytes)?;
+        let audit_expected = audit_expect(ctx, ty, v);
         for loader in LOADERS {
             if !cfg!(feature = "mmap") && matches!(loader, Loader::LoadMmap | Loader::Mmap) {
                 continue;
             }
             let ok = |script: Script| -> Result<(), Fail> {
+                crate::audit::reset();
                 match guard(|| subj.load(loader, &path, 0, script)) {
-                    Ok(Ok(o)) if o.val == *v => Ok(()),
-                    other => Err(Fail::new("load-failed", format!("{:?} of a valid file: {:?}", loader, other.map(|r| r.map(|o| o.val.show()).map_err(|e| format!("{:#}", e)))))),
+                    Ok(Ok(o)) if o.val == *v => {}
+                    other => return Err(Fail::new("load-failed", format!("{:?} of a valid file: {:?}", loader, other.map(|r| r.map(|o| o.val.show()).map_err(|e| format!("{:#}", e)))))),
                 }
+                // a destructor of the loaded structure that reads its (borrowed) data must still see the data
+                if let Some(exp) = audit_expected {
+                    let got = crate::audit::read();
+                    if got != exp {
+                        return Err(Fail::new(
+                            "drop-reads-released-memory",
+                            format!("{:?} + {:?}: the destructor of the loaded structure read data with checksum/count {:?}, the stored data has {:?}: the backing memory was released or changed before the structure was dropped", loader, script, got, exp),
+                        )
+                        .env(json!({"loader": format!("{:?}", loader), "script": format!("{:?}", script)})));
+                    }
+                }
+                Ok(())
             };
             ok(Script::Direct)?; // warm-up
             let heap0 = crate::alloc::live_bytes();
@@ -170,4 +190,59 @@ pub fn c09(ctx: &Ctx, subj: &dyn DynSubject, ty: &Ty, rep: &mut Report) {
         std::fs::remove_file(&path).ok();
         Ok(())
     });
+}
+
+/// Expected (checksum sum, drop count) of the `DropAudit` instances inside a value, if the type has any.
+fn audit_expect(ctx: &Ctx, ty: &Ty, v: &Val) -> Option<(u64, u64)> {
+    fn walk(ctx: &Ctx, ty: &Ty, v: &Val, acc: &mut (u64, u64), any: &mut bool) {
+        match ty {
+            Ty::Adt(i, args) => {
+                let def = &ctx.u.adts[*i];
+                let (var, fields): (usize, &[Val]) = match &def.body {
+                    vmodel::ty::Body::Struct(_) => (0, v.seq()),
+                    vmodel::ty::Body::Enum(_) => v.var(),
+                };
+                let fts = ctx.u.inst_fields(*i, args, var);
+                if def.name == "DropAudit" {
+                    *any = true;
+                    let data: Vec<u64> = fields[0].seq().iter().map(|x| x.u64()).collect();
+                    acc.0 = acc.0.wrapping_add(crate::audit::checksum(&data));
+                    acc.1 += 1;
+                }
+                for (ft, fv) in fts.iter().zip(fields) {
+                    walk(ctx, ft, fv, acc, any);
+                }
+            }
+            Ty::Vec(e) | Ty::BoxSlice(e) | Ty::Array(e, _) => {
+                for x in v.seq() {
+                    walk(ctx, e, x, acc, any);
+                }
+            }
+            Ty::Option(e) | Ty::Bound(e) => {
+                let (k, f) = v.var();
+                if k > 0 {
+                    walk(ctx, e, &f[0], acc, any);
+                }
+            }
+            Ty::ControlFlow(b, c) => {
+                let (k, f) = v.var();
+                walk(ctx, if k == 0 { b } else { c }, &f[0], acc, any);
+            }
+            _ => {}
+        }
+    }
+    fn mentions(ctx: &Ctx, ty: &Ty) -> bool {
+        match ty {
+            Ty::Adt(i, _) if ctx.u.adts[*i].name == "DropAudit" => true,
+            Ty::Phantom(_) => false,
+            _ => ctx.u.components(ty).iter().any(|c| mentions(ctx, c)),
+        }
+    }
+    if !mentions(ctx, ty) {
+        return None;
+    }
+    let mut acc = (0u64, 0u64);
+    let mut any = false;
+    walk(ctx, ty, v, &mut acc, &mut any);
+    Some(acc)
 }
